@@ -18,7 +18,9 @@ CONFIG = dict(
           "(accepted count must equal the model's); (4) cool: GeometricCooling executed n times on a Temperature, grid + "
           "random (t, alpha), constructor range check; (5) run: real_sa / permutation_sa template runs under the step "
           "observer: every acceptance (frame, not-worse => accepted) and every cooling (T' = alpha*T, nobody else "
-          "touches T, once per pass). Non-trivial = not a frame-error case and not a better-candidate case; distinct = "
+          "touches T, once per pass), with the state's generator swapped for a SplitMix-backed scripted one before the first draw so "
+          "that EVERY acceptance of the run is re-emitted as a prepared accept case with the exact word it consumed "
+          "(run-accept: exact decision); (6) accept-equal-inf / accept-inf: +inf objective values. Non-trivial = not a frame-error case and not a better-candidate case; distinct = "
           "distinct input line."),
     nontrivial=lambda inp: (inp.startswith("(accept") and "(stack ((2" in inp) or inp.startswith("(freq") or inp.startswith("(cool") or inp.startswith("(run"),
     trusted_base=[
@@ -40,6 +42,7 @@ CONFIG.update(
                 "around the decision threshold (K exact), seeded frequencies and template runs (O)."),
     level_note=("Trusted: Lean kernel; libm exp; rand's word->f64 mapping; harness + driver. Floating-point rounding of "
                 "(cur-cand)/T and exp is not modelled in the theorems (partial: rounding); the compiled model uses the same "
-                "IEEE operations as the code. Infinite objective values / T <= 0 are outside the property's quantifier "
-                "(equal infinite objectives give exp(NaN): rejected)."),
+                "IEEE operations as the code. Known finding (known_findings.d/C17.json): two equal +inf objective values give "
+                "inf - inf = NaN and the candidate is rejected; Lean counterexample accept_equal_inf_violates on the IEEE-like "
+                "carrier Ext F, partial form accept_better_or_equal_partial (finite values). T <= 0 is outside the quantifier."),
 )
